@@ -40,7 +40,9 @@
      (W) a weight-cache hit on an entry made by an earlier compilation - possible only
          for weights whose value_id is value keyed (ids of tensors read from a file are
          fresh uuid4); the hit hands over the earlier compilation's tensor object,
-         encoded for that compilation's kernel shape and accelerator;
+         encoded for that compilation's kernel shape and accelerator, and skips what the
+         encoding path does to the current graph (scale_tens.element_size_bytes = 10), so
+         even A;A lays out its constants differently from A alone;
      (A) assigning an address to an id that still has one in the address map - the
          value-keyed ids, and the ids of tensor objects obtained through (W).
    plus (R) the random generator if the allocator did not reseed it.
